@@ -20,7 +20,8 @@ kernel sm_rescale: pybrops/core/mat/DenseScaledMatrix.py :: DenseScaledMatrix.re
     out of scope (parameter nonempty): `out.size > 0`
     out of scope (parameter lo): `numpy.fmin.reduce(out.reshape(-1, out.shape[-1]), axis=0)`
     out of scope (parameter hi): `numpy.fmax.reduce(out.reshape(-1, out.shape[-1]), axis=0)`
-kernel bv_unscale: pybrops/popgen/bvmat/DenseBreedingValueMatrix.py :: DenseBreedingValueMatrix.unscale  sha=89337997520e9d78  ok
+kernel bv_unscale: pybrops/popgen/bvmat/DenseBreedingValueMatrix.py :: DenseBreedingValueMatrix.unscale  sha=6b196f8ea6448f59  FAILED
+    bv_unscale (pybrops/popgen/bvmat/DenseBreedingValueMatrix.py:DenseBreedingValueMatrix.unscale): Untranslatable: name `self._unscaled` is neither a declared parameter nor assigned in the kernel
 kernel bv_from_numpy: pybrops/popgen/bvmat/DenseBreedingValueMatrix.py :: DenseBreedingValueMatrix.from_numpy  sha=0e341be7f2469155  ok
     slice: targets ['const', 'hi', 'lo', 'location', 'mat', 'scale'] -> ('mat', 'location', 'scale')
     out of scope (parameter nmean): `numpy.nanmean(mat, axis=0)`
@@ -97,8 +98,7 @@ def sm_rescale {α : Type} [Add α] [Sub α] [Mul α] [Div α] [OfNat α 0] [OfN
   (out, new_location, new_scale)
 
 /-- pybrops/popgen/bvmat/DenseBreedingValueMatrix.py :: DenseBreedingValueMatrix.unscale; model counterpart: BVMat unscale cell -/
-def bv_unscale {α : Type} [Add α] [Mul α] (x : α) (location : α) (scale : α) : α :=
-  ((scale * x) + location)
+-- NOT TRANSLATED: bv_unscale (pybrops/popgen/bvmat/DenseBreedingValueMatrix.py:DenseBreedingValueMatrix.unscale): Untranslatable: name `self._unscaled` is neither a declared parameter nor assigned in the kernel
 
 /-- pybrops/popgen/bvmat/DenseBreedingValueMatrix.py :: DenseBreedingValueMatrix.from_numpy; model counterpart: BVMat fromNumpy cell: (x - loc') * (1/scale'), loc'/scale' = BVMat.fitLoc / fitScale -/
 def bv_from_numpy {α : Type} [Sub α] [Mul α] [Div α] [OfNat α 0] [OfNat α 1] [DecidableEq α] (mat : α) (nmean : α) (nstd : α) (nonempty : Bool) (lo : α) (hi : α) : (α × α × α) :=
